@@ -111,6 +111,9 @@ def write_datadir(path, coin, placements, header_only=(), xor_key=None, names=No
         full = os.path.join(path, name)
         if content is None:
             os.makedirs(full, exist_ok=True)
+        elif isinstance(content, tuple) and content[0] == "symlink":
+            if not os.path.lexists(full):
+                os.symlink(content[1], full)
         else:
             with open(full, "wb") as f:
                 f.write(content)
